@@ -9,7 +9,7 @@
     [disable]) on a manager whose first configuration is [cfg] ([new], [Default], a [Host]'s field).
     [accept_loop checked sc t0 evs]: the accept loop of src/lib.rs with every counter and exit
     path it has, over the pre-host limiter / host limiter pair described by [sc]. *)
-From KV Require Import Bytes RustInt Limiter LimiterProofs.
+From KV Require Import Bytes RustInt Limiter LimiterProofs LimiterConc LimiterConcProofs LimiterHosts LimiterHostsProofs.
 Open Scope N_scope.
 
 (** For every sequential history and every configuration (max_requests, check_every,
@@ -356,3 +356,189 @@ Example ex_separate_pre :
                       host_cfg := ex_cfg2; shared := false |} 0 [Conn 1 0 [0]; Conn 1 0 [0]; Conn 2 0 [0; 0; 0]]
   = ([Served [Normal] false; Served [] true; Served [Normal; Normal; TooMany] false], Running).
 Proof. vm_compute. reflexivity. Qed.
+
+(** ---- the server over arbitrary event lists ------------------------------------------------- *)
+
+(** For EVERY event list — connections, failed calls of accept(), QUIC time-outs, shutdown requests,
+    calls made by other tasks on the shared limiters — what each connection receives and how the
+    loop ends are those of the reference server for event lists: connections are answered from the
+    reference counter(s) alone until a shutdown request or the 101st consecutive accept error,
+    everybody is refused afterwards. *)
+Theorem server_events_refine_reference : forall (checked : bool) (sc : sconfig) (t0 : N) (evs : list conn_event),
+  fits (ev_calls_bound evs) -> accept_loop checked sc t0 evs = spec_server_events sc t0 evs.
+Proof. exact server_events_model. Qed.
+
+(** The reference server for event lists ends as [loop_spec] says, and on connection lists it is [spec_server]. *)
+Theorem reference_server_events_meaning : forall (sc : sconfig) (t0 : N),
+  (forall evs, snd (spec_server_events sc t0 evs) = loop_spec 0 evs) /\
+  (forall cs, spec_server_events sc t0 (map conn_of cs) = (spec_server sc t0 cs, Running)).
+Proof. intros sc t0. split; [intros evs; apply spec_events_status|intros cs; apply spec_events_conns]. Qed.
+
+(** 100 failed calls of accept(), a dropped connection of the flooder, 100 more, and the bystander is
+    served; the 101st failure in a row ends the loop and everybody after it is refused. *)
+Example ex_events :
+  let sc := same_limiter ex_cfg2 in
+  fits (ev_calls_bound ([Conn 1 0 [0; 0; 0; 0; 0; 0; 0]] ++ repeat AcceptErr 100 ++ [Conn 1 0 [0]] ++ repeat AcceptErr 100 ++ [Conn 2 0 [0]])) /\
+  spec_server_events sc 0 ([Conn 1 0 [0; 0; 0; 0; 0; 0; 0]] ++ repeat AcceptErr 100 ++ [Conn 1 0 [0]] ++ repeat AcceptErr 100 ++ [Conn 2 0 [0]])
+  = ([Served [Normal; TooMany; TooMany; TooMany; TooMany] true; Served [] true; Served [Normal] false], Running) /\
+  spec_server_events sc 0 ([Conn 1 0 [0]] ++ repeat AcceptErr 101 ++ [Conn 2 0 [0]; Conn 1 0 [0]])
+  = ([Served [Normal] false; Refused; Refused], ReturnedErr) /\
+  spec_server_events sc 0 [Conn 1 0 [0]; Shutdown; Conn 2 0 [0]] = ([Served [Normal] false; Refused], ReturnedOk).
+Proof. vm_compute. repeat split; discriminate. Qed.
+
+(** At the server, in terms of what clients receive: whatever happened before — connections and requests
+    of anybody at any level of the ladder, accept errors, calls of other tasks — as long as the listener
+    has not been ended (shutdown request, 101 accept errors in a row), a client whose calls so far, this
+    connection and its requests included, are at most the smaller configured maximum is accepted and
+    every one of its requests is answered normally. *)
+Theorem server_bystander_always_served :
+  forall (checked : bool) (sc : sconfig) (t0 : N) (evs1 : list conn_event) (b t : N) (reqs : list N) (evs2 : list conn_event),
+  fits (ev_calls_bound (evs1 ++ Conn b t reqs :: evs2)) ->
+  loop_spec 0 evs1 = Running ->
+  ev_calls_of b evs1 + 1 + N.of_nat (length reqs) <= min_max sc ->
+  nth_error (fst (accept_loop checked sc t0 (evs1 ++ Conn b t reqs :: evs2))) (length (filter is_conn evs1))
+  = Some (Served (repeat Normal (length reqs)) false).
+Proof. exact server_bystander_model. Qed.
+
+Example ex_bystander_hyp :
+  let evs1 := [Conn 1 0 [0; 0; 0; 0; 0; 0; 0]] ++ repeat AcceptErr 100 ++ repeat (Conn 1 1 [1]) 150 in
+  loop_spec 0 evs1 = Running /\ ev_calls_of 2 evs1 + 1 + N.of_nat (length [2]) <= min_max (same_limiter ex_cfg2) /\
+  length (filter is_conn evs1) = 151%nat.
+Proof. vm_compute. repeat split; discriminate. Qed.
+
+(** ---- concurrent calls of register --------------------------------------------------------- *)
+(** [conc_log checked cfg nsh shard t0 progs sch]: the calls that have returned (thread, address,
+    verdict; newest first) after the schedule [sch] — a list of (thread, clock reading): that
+    thread makes its next access to the shared counters — of threads that make the calls of
+    [progs] (one list of addresses per thread) on one manager; Model/LimiterConc.v splits
+    [register] into its accesses (fetch_add / store on [iteration], the two halves of the window
+    start, the shard-by-shard [clear], the per-key atomic entry update).  [nsh]/[shard]: the
+    shards of the map, arbitrary.  [rets b log]: calls of [b] in [log]. *)
+
+(** Under EVERY interleaving, with any other traffic, a call of [b] is never answered more harshly
+    than the ladder on the number of [b]'s own calls that have returned so far (this one
+    included) — and no call panics. *)
+Theorem concurrent_others_never_hurt :
+  forall (checked : bool) (cfg : config) (nsh : nat) (shard : N -> nat) (t0 : N) (progs : list (list N))
+         (sch : list (nat * N)) (l2 : list ret_entry) (i : nat) (b : N) (d : outcome action) (l1 : list ret_entry),
+  fits (length sch) ->
+  conc_log checked cfg nsh shard t0 progs sch = l2 ++ (i, b, d) :: l1 ->
+  exists act, d = Ok act /\
+    action_code act <= action_code (ladder (max_requests cfg) (rets b ((i, b, d) :: l1))).
+Proof. exact conc_others_never_hurt. Qed.
+
+(** An address that makes at most [max_requests] calls in all — on whatever threads — is never
+    limited, whatever anybody else does concurrently. *)
+Theorem concurrent_own_traffic_never_limited :
+  forall (checked : bool) (cfg : config) (nsh : nat) (shard : N -> nat) (t0 : N) (progs : list (list N))
+         (sch : list (nat * N)) (i : nat) (b : N) (d : outcome action),
+  fits (length sch) -> count b (all_calls progs) <= max_requests cfg ->
+  In (i, b, d) (conc_log checked cfg nsh shard t0 progs sch) -> d = Ok Passed.
+Proof. exact conc_own_traffic. Qed.
+
+(** With every call counted ([check_every] <= 1) and no reset: under every interleaving the k-th
+    call of an address to return gets exactly [ladder max k]; when all threads are done that is
+    [ladder max 1 .. ladder max (its number of calls)] — independent of the schedule. *)
+Theorem concurrent_exact_ladder :
+  forall (checked : bool) (cfg : config) (nsh : nat) (shard : N -> nat) (t0 : N) (progs : list (list N))
+         (sch : list (nat * N)) (b : N),
+  fits (length sch) -> check_every cfg <= 1 -> reset_after cfg = None ->
+  verdicts_of b (conc_log checked cfg nsh shard t0 progs sch)
+  = map (@Ok action) (ladder_down (max_requests cfg) (N.to_nat (rets b (conc_log checked cfg nsh shard t0 progs sch)))) /\
+  (all_done (wrun checked cfg nsh shard (wstart t0 progs) sch) = true ->
+   verdicts_of b (conc_log checked cfg nsh shard t0 progs sch)
+   = map (@Ok action) (ladder_down (max_requests cfg) (N.to_nat (count b (all_calls progs))))).
+Proof.
+  intros. split; [apply conc_exact_ladder; assumption|intros; apply conc_exact_ladder_done; assumption].
+Qed.
+
+(** ... and the execution is linearisable: the verdicts, in the order in which the calls took
+    effect (each inside its call), are those of the sequential reference counter. *)
+Theorem concurrent_linearizable :
+  forall (checked : bool) (cfg : config) (nsh : nat) (shard : N -> nat) (t0 : N) (progs : list (list N))
+         (sch : list (nat * N)) (tm : ret_entry -> N),
+  fits (length sch) -> check_every cfg <= 1 -> reset_after cfg = None ->
+  map snd (rev (conc_log checked cfg nsh shard t0 progs sch))
+  = map (@Ok action) (reference cfg t0 (map (ev_of tm) (rev (conc_log checked cfg nsh shard t0 progs sch)))).
+Proof. exact conc_linearizable. Qed.
+
+(** A disabled limiter never limits and touches no shared state under any interleaving. *)
+Theorem concurrent_disabled_never_limits :
+  forall (checked : bool) (cfg : config) (nsh : nat) (shard : N -> nat) (t0 : N) (progs : list (list N)) (sch : list (nat * N)),
+  Forall (fun en => snd en = Ok Passed) (conc_log checked (disable cfg) nsh shard t0 progs sch) /\
+  conc_shared checked (disable cfg) nsh shard t0 progs sch = cinit t0.
+Proof. exact conc_disabled. Qed.
+
+(** The small-step model run call by call on one thread is the sequential model of [register]
+    (the one compared with the code call by call). *)
+Theorem concurrent_model_is_sequential_on_one_thread :
+  forall (checked : bool) (cfg : config) (nsh : nat) (shard : N -> nat) (t0 : N) (h : list event),
+  check_every cfg <= usize_max -> (forall k, (shard k < nsh)%nat) ->
+  concseq_decisions checked cfg nsh shard t0 h = decisions checked cfg t0 h.
+Proof. exact concseq_is_sequential. Qed.
+
+(** Non-vacuity: two threads on address 1 and one call of address 2, interleaved access by access. *)
+Definition ex_progs : list (list N) := [[1; 1; 2]; [1; 1]].
+Definition ex_sch : list (nat * N) :=
+  map (fun i => (i, 0)) [0; 1; 1; 0; 0; 1; 1; 0; 0; 1; 1; 1; 1; 1; 1; 0; 0; 0; 0; 0; 0; 0; 0; 0; 0; 0]%nat.
+Example ex_concurrent :
+  fits (length ex_sch) /\ check_every ex_cfg <= 1 /\ reset_after ex_cfg = None /\
+  conc_log true ex_cfg 4 conc_shard 0 ex_progs ex_sch
+  = [(0%nat, 2, Ok Passed); (0%nat, 1, Ok Drop); (1%nat, 1, Ok Send); (1%nat, 1, Ok Send); (0%nat, 1, Ok Passed)] /\
+  all_done (wrun true ex_cfg 4 conc_shard (wstart 0 ex_progs) ex_sch) = true /\
+  count 2 (all_calls ex_progs) <= max_requests ex_cfg.
+Proof. vm_compute. repeat split; discriminate. Qed.
+(** Outside that regime ([check_every] = 2) two concurrent calls can both be sampled, which no
+    sequential history allows (there exactly every second call is): the exact-ladder and
+    linearisability statements need [check_every] <= 1; the bound of [concurrent_others_never_hurt] still holds. *)
+Example ex_sampling_race :
+  let cfg := {| max_requests := 0; check_every := 2; reset_after := None |} in
+  map snd (conc_log true cfg 4 conc_shard 0 [[1]; [1]; [1]]
+             (map (fun i => (i, 0)) [0; 1; 2; 1; 1; 1; 1; 2; 2; 2; 2]%nat))
+  = [Ok Drop; Ok Drop; Ok Passed] /\
+  reference cfg 0 [(1, 0); (1, 0); (1, 0)] = [Passed; Drop; Passed].
+Proof. vm_compute. split; reflexivity. Qed.
+
+(** ---- several hosts, unknown hosts ---------------------------------------------------------- *)
+(** [maccept_loop checked mc t0 evs]: the accept loop and [handle_connection] over a collection of
+    hosts — every [Host] has its own manager (own counters), the pre-host limiter shares those of
+    the first host (or not: [m_base]) — for connections whose requests name a host each
+    ([THost i]) or a host that does not exist ([TUnknown]: 409, the connection is closed, no
+    host limiter is asked), accept errors and shutdown requests. *)
+Theorem hosts_server_refines_reference : forall (checked : bool) (mc : mconfig) (t0 : N) (evs : list mevent),
+  fits (mcalls_bound evs) -> maccept_loop checked mc t0 evs = spec_mserver mc t0 evs.
+Proof. exact hosts_server_model. Qed.
+
+(** A request for an unknown host asks no limiter; a request to one host leaves the counters of every
+    other host (and, for a further host, those of the pre-host limiter) as they are. *)
+Theorem hosts_have_their_own_counters :
+  forall (checked : bool) (mc : mconfig) (p : mlims) (a t : N),
+  ask checked mc p a t TUnknown = None /\
+  (forall k, (length (m_extra mc) <= k)%nat -> ask checked mc p a t (THost (S k)) = None) /\
+  (forall k p1 d, ask checked mc p a t (THost (S k)) = Some (p1, d) ->
+     fst p1 = fst p /\ (forall j, j <> k -> nth_error (snd p1) j = nth_error (snd p) j)) /\
+  (forall p1 d, ask checked mc p a t (THost O) = Some (p1, d) -> snd p1 = snd p).
+Proof.
+  intros. destruct (unknown_host_not_counted checked mc p a t) as [H1 H2].
+  refine (conj H1 (conj H2 (conj _ _))).
+  - intros k p1 d. apply hosts_have_own_counters.
+  - intros p1 d. apply first_host_leaves_others.
+Qed.
+
+(** The one-host server of the theorems above is the special case: no further host, every request for the first. *)
+Theorem hosts_embedding : forall (checked : bool) (sc : sconfig) (t0 : N) (cs : list connection),
+  maccept_loop checked {| m_base := sc; m_extra := [] |} t0 (map m_of cs)
+  = (map up (fst (accept_loop checked sc t0 (map conn_of cs))), snd (accept_loop checked sc t0 (map conn_of cs))).
+Proof. exact hosts_embedding_model. Qed.
+
+(** two hosts (max 1, counters shared with the pre-host limiter; max 2, own counters): address 1 is counted once
+    at accept by host 0's counters, passes twice at host 1 and gets 429 there the third time, 429 at host 0 (its
+    second counted call there), 409 for a name nobody has — and that closes the connection; address 2 likewise
+    has one call left at host 0, which the accept uses. *)
+Example ex_hosts :
+  let mc := {| m_base := same_limiter {| max_requests := 1; check_every := 1; reset_after := None |};
+               m_extra := [{| max_requests := 2; check_every := 1; reset_after := None |}] |} in
+  fits (mcalls_bound [MConn 1 0 [(0, THost 1); (0, THost 1); (0, THost 1); (0, THost 0); (0, TUnknown); (0, THost 0)]; MConn 2 0 [(0, THost 0)]]) /\
+  spec_mserver mc 0 [MConn 1 0 [(0, THost 1); (0, THost 1); (0, THost 1); (0, THost 0); (0, TUnknown); (0, THost 0)]; MConn 2 0 [(0, THost 0)]]
+  = ([MServed [MNormal; MNormal; MTooMany; MTooMany; MConflict] true; MServed [MTooMany] false], Running).
+Proof. vm_compute. split; [discriminate|reflexivity]. Qed.
